@@ -83,6 +83,7 @@ fn main() {
         if d.n <= 3 {
             let mut moves = pd_moves(d, true);
             moves.extend(pd_r2_moves(d));
+            moves.extend(pd_r3_moves(d));
             for (mv, d2) in moves {
                 run.add("move_edges", 1);
                 if let Some(j2) = check(&run, &format!("{name}:{mv}"), &d2, d.n <= 2) {
